@@ -386,4 +386,17 @@ def SysB.run {S D I : Type} (ops : Ops S D) (b : BuildOps S I) (y : SysB S) :
       | .panic s => .panic s
       | .ok (y'', os) => .ok (y'', o :: os)
 
+/-- `sendsOk` for histories with builder events: the ticks of all snapshots the sender builds (or
+tries to build) are `i32`s and strictly increasing -/
+def sendsOkB {S I : Type} : Option Int → List (EvB S I) → Prop
+  | _, [] => True
+  | last, .sendItems t _ :: rest => inI32 t ∧ (∀ l, last = some l → l < t) ∧ sendsOkB (some t) rest
+  | last, .other (.send t _) :: rest => inI32 t ∧ (∀ l, last = some l → l < t) ∧ sendsOkB (some t) rest
+  | last, .other _ :: rest => sendsOkB last rest
+
+/-- the C13 verdict on an observation of `SysB` -/
+def ObsB.ok {S : Type} (sent : List (Int × S)) : ObsB S → Prop
+  | .obs o => o.ok sent
+  | .builderError _ => True
+
 end Tw.SnapMgr
